@@ -220,8 +220,13 @@ def run(case, ctx):
     rt.files.tmp_dir = tmp
     rt.files.verbose = False
     ReferenceTest.verbose = False
-    ref_path = os.path.join(d, 'ref.txt')
-    act_path = os.path.join(d, 'act.txt')
+    # with no encoding given, tdda guesses it from the reference's name
+    ext = ['.txt', '.txt', '.ps', '.eps', '.md', '.svg', '.csv', ''][
+        (len(ref) + len(act)) % 8]
+    ref_path = os.path.join(d, 'ref' + ext)
+    act_path = os.path.join(d, 'act' + ext)
+    if ext not in ('.txt',):
+        out.label('reference-extension:' + (ext or 'none'))
     with open(ref_path, 'w', encoding='utf-8', newline='') as f:
         f.write(to_text(ref, case['newline']['ref'], eol))
     with open(act_path, 'w', encoding='utf-8', newline='') as f:
